@@ -4,3 +4,4 @@ Definition k_flow_btfn : pfun :=
      pf_body := [
     SReturn (PCall "SyntaxId/uuid,version,version_minor" [(PCall "uuid.UUID/fields" [(PTuple [(PInt 1823939628); (PInt 38930); (PInt 17728); (PName "flags"); (PInt 0); (PInt 0)])]); (PInt 1); (PInt 0)])
   ] |}.
+Definition k_flow_btfn_defaults : list (string * pexp) := [("flags", (PName "BindTimeFeatureNegotiation.NONE"))].
